@@ -348,6 +348,17 @@ Proof.
       rewrite Hq. rewrite (rf_tpl _ _ _ _ _ _ _ _ _ _ F1), E1, E2. reflexivity.
     + rewrite (q_liou_tpl_false p q o1 dq m1 N c1 n1 ci1 ni1 F1 E1 E2). reflexivity.
 Qed.
+Theorem compose_record :
+  c_opers r = c_opers r' /\ n_opers r = n_opers r' /\ (c_ids r = c_ids r' /\ n_ids r = n_ids r') /\
+  (c_coeffs r = c_coeffs r' /\ n_coeffs r = n_coeffs r') /\ (p_dt r = p_dt r' /\ p_d r = p_d r' /\ btype r = btype r') /\
+  (eigvals r = eigvals r' /\ eigvecs r = eigvecs r' /\ propagators r = propagators r' /\ total_propagator r = total_propagator r') /\
+  (omega r = omega r' /\ total_phases r = total_phases r' /\ filter_function r = filter_function r') /\
+  control_matrix r = control_matrix r' /\ tpl r = tpl r'.
+Proof.
+  split. apply compose_c_opers. split. apply compose_n_opers. split. apply compose_ids. split. apply compose_coeffs.
+  split. apply compose_dt. split. apply compose_spectral. split. apply compose_omega_phases_ff.
+  split. apply compose_control_matrix. apply compose_tpl.
+Qed.
 End Compose.
 
 (* the index hypotheses of the theorem above follow from the mappings composing elementwise, when
